@@ -180,6 +180,10 @@ func (s *sharedEntryAttributes) resolve_leafref_key_path(ctx context.Context, ke
 		}
 
 		lvs := keyValue.GetHighestPrecedence(LeafVariantSlice{}, false)
+		if len(lvs) == 0 {
+			// the leaf the key refers to has no value that remains (e.g. it is removed by this very transaction)
+			return fmt.Errorf("no value for key %s (%s)", k, v.value)
+		}
 		tv, err := lvs[0].Value()
 		if err != nil {
 			return err
